@@ -15,7 +15,7 @@ DESIGN_REF = "DESIGN.md §3 C09"
 RULE = (
     "(a) exhaustive table: 1 or 2 links between one pair (a,b) or on one vertex (a,a), each of 6 link classes x both "
     "orientations, x 7 filters (two of them falsy callable objects); (b) Hypothesis multigraphs (<= 8 vertices, <= 14 links) x edge filters as truth "
-    "tables.  Cases run with neighbor caching off or on (caches warmed first).  For EVERY ordered pair incl. a is b x direction flag x 3 unknown-handling modes: find_links equals "
+    "tables.  Cases run with neighbor caching off or on (caches warmed first); in 3 of 5 cases the world is first queried, then copied (deepcopy / pickle / nrpickler) and the whole check incl. unlink runs on the copy.  For EVERY ordered pair incl. a is b x direction flag x 3 unknown-handling modes: find_links equals "
     "the reference set (NotImplementedError exactly when the reference raises); whenever both calls return its size "
     "equals neighbors(a, FORWARD|ANY, same handling, same filter).count(b); then unlink(a,b) on a generated pair: "
     "find_links(a,b,.) and find_links(b,a,.) are empty for all settings without raising and every other pair's "
@@ -44,12 +44,13 @@ def budget(tier):
 
 def strategy(tier):
     return st.builds(
-        lambda g, f, a, b, cache: {"g": g, "f": f, "unlink": [a % g["nv"], b % g["nv"]], "cache": cache},
+        lambda g, f, a, b, cache, cp: {"g": g, "f": f, "unlink": [a % g["nv"], b % g["nv"]], "cache": cache, "copy": cp},
         st.one_of(graphs.graph_descs(), graphs.graph_descs(), graphs.graph_descs(), graphs.eq_graph_descs()),
         graphs.edge_filter_specs,
         st.integers(0, 7),
         st.integers(0, 7),
         st.booleans(),
+        st.sampled_from([0, 0, 1, 2, 3]),
     )
 
 
@@ -101,10 +102,21 @@ def check_case(case):
 
 
 def _check_case(case):
+    vs, ls = graphs.build(case["g"])
+    if case["g"].get("eq") or not case.get("copy"):
+        return _check_world(case, vs, ls, query_only=False)
+    # query the world, copy it (deepcopy / pickle / nrpickler), then run the full check incl. unlink on the copy
+    info = _check_world(case, vs, ls, query_only=True)
+    vs2, ls2, _ = graphs.copied(vs, ls, None, case["copy"])
+    info2 = _check_world(case, vs2, ls2, query_only=False)
+    info2["classes"] = sorted(set(info2["classes"]) | {"checked-on-copy-of-queried-graph"})
+    return info2
+
+
+def _check_world(case, vs, ls, query_only):
     from edgegraph.builder import explicit
     from edgegraph.traversal import helpers
 
-    vs, ls = graphs.build(case["g"])
     G = graphs.abstract(vs, ls)
     vi = {id(v): i for i, v in enumerate(vs)}
     li = {id(l): i for i, l in enumerate(ls)}
@@ -167,6 +179,8 @@ def _check_case(case):
                         continue
                     cnt = sum(1 for x in nb if x is vs[b])
                     require(len(got) == cnt, "count-vs-neighbors", f"{where}: {len(got)} links but v{b} occurs {cnt}x in neighbors(v{a})")
+    if query_only:
+        return dict(nt=nt, classes=sorted(classes))
     if case["g"].get("eq"):
         # unlink() relies on list membership (==): no promise for value-equal vertices
         classes.add("value-equal-vertices")
